@@ -165,7 +165,12 @@ def generic(l0: IS, l1: IS, l2: IS, l3: int, l4: int, l5: int, n: int, b0: bool,
     """
     doc = spines.build(SPINE, [l0, l1, l2, l3, l4, l5], n, [b0, b1, b2])
     exp = oracle.evaluate(QUERY, doc)
-    ms = list(COMPILED.finditer(doc))
+    if P.get("route") == "async":  # the nodelist through the async entry point
+        from vlib.hs import alist, drive
+
+        ms = drive(alist(drive(COMPILED.finditer_async(doc))))
+    else:
+        ms = list(COMPILED.finditer(doc))
     if not _nodes_ok(ms, exp):
         return ok(False)
     vals = COMPILED.findall(doc)
